@@ -21,6 +21,8 @@ RULE = ("(a) 200 index-mask pairs for _merge_mask (strictly increasing as produc
         "trafo3w, shunt, closed bus-bus switch, open line switch, shuffled indices) with an observable base measurement "
         "set (all bus injections + voltages, or all branch flows + one voltage) plus random extra v/va/p/q/i readings, or an "
         "exactly determined set without any redundancy (|V| at the slack bus + p, q at every other bus), "
+        "in every run additionally a FIXED share (6 quick / 60 thorough) of nets with 2-3 three-winding transformers at one HV bus, at least "
+        "one of them out of service (also the first one), with p/q/i readings on the hv, mv and lv sides of the in-service ones; "
         "estimated in original order and again permuted with 30 % duplicated readings; non-trivial = estimation ran on a "
         "net with at least 3 buses and at least one redundant or duplicated reading")
 ASSUMPTIONS = ["convergence of the Gauss-Newton WLS iteration from the flat start is not proved; it is observed on every generated case (a failure to converge is reported as a violation)",
@@ -115,6 +117,37 @@ def _gen_net(rng):
         l = rng.choice(list(net.line.index))
         pp.create_switch(net, net.line.from_bus.at[l], l, "l", closed=False)
         feat.add("open_line_switch")
+    return net, feat
+
+
+def _gen_net_t3w(rng):
+    """forced structure (a fixed share of every run): 2-3 three-winding transformers 110/20/10 kV at one HV bus, at least
+    one of them OUT OF SERVICE (chosen at random, so also the first one), their 10 kV buses tied by lines so that every
+    bus stays supplied; the ppci branch rows of the mv/lv sides of the in-service ones then depend on the number of
+    IN-SERVICE three-winding transformers (ppc_conversion._add_measurements_to_trafo3w)"""
+    net = nets.rand_net(rng, nb=rng.randint(3, 5), chords=rng.randint(0, 1), n_trafo=0, shuffle_index=rng.random() < 0.5,
+                        n_trafo3w=0, oos=0.0)
+    feat = {"trafo3w", "trafo3w_forced_oos"}
+    # the 20 kV net is fed through the three-winding transformers only (a two-winding transformer with 150 degree shift in
+    # parallel to them would close a loop over inconsistent phase shifts: no meaningful operating point)
+    net.ext_grid = net.ext_grid.iloc[0:0]
+    hv = int(pp.create_bus(net, vn_kv=110.0, name="hv"))
+    pp.create_ext_grid(net, hv, vm_pu=rng.choice([1.0, 1.02, 0.98]), va_degree=rng.choice([0.0, 0.0, 10.0]))
+    mv = [int(b) for b in net.bus.index if net.bus.vn_kv.at[b] == 20.0]
+    k = rng.choice([2, 2, 3])
+    tidx = rng.sample(range(3 * k + 2), k) if rng.random() < 0.5 else list(range(k))
+    lvs = []
+    for t in range(k):
+        lv = pp.create_bus(net, vn_kv=10.0, name="lv%d" % t)
+        lvs.append(lv)
+        pp.create_transformer3w(net, hv, rng.choice(mv), lv, std_type="63/25/38 MVA 110/20/10 kV", max_loading_percent=100.0, index=tidx[t])
+        pp.create_load(net, lv, p_mw=rng.randint(4, 24) / 8, q_mvar=rng.randint(0, 8) / 8)
+    for a, b_ in zip(lvs[:-1], lvs[1:]):
+        pp.create_line(net, a, b_, length_km=rng.randint(4, 16) / 8, std_type="NA2XS2Y 1x240 RM/25 6/10 kV", max_loading_percent=100.0)
+    n_off = 1 if k == 2 else rng.choice([1, 1, 2])
+    for t in rng.sample(tidx, n_off):
+        net.trafo3w.at[t, "in_service"] = False
+    feat.add("trafo3w_%d_of_%d_in_service" % (k - n_off, k))
     return net, feat
 
 
@@ -363,8 +396,8 @@ def _rn_kind(net):
     return "spec", None
 
 
-def _real_case(ctx, rng, k, hx_jobs, gain_jobs, jac_jobs=None):
-    net, feat = _gen_net(rng)
+def _real_case(ctx, rng, k, hx_jobs, gain_jobs, jac_jobs=None, forced=None):
+    net, feat = _gen_net_t3w(rng) if forced == "t3w" else _gen_net(rng)
     try:
         pp.runpp(net, **RUNKW)
     except Exception as e:
@@ -372,6 +405,8 @@ def _real_case(ctx, rng, k, hx_jobs, gain_jobs, jac_jobs=None):
         return
     base_inj, base_flow, extra, live = _exact_measurements(net, rng)
     scheme = rng.choice(["inj", "inj", "flow", "both", "minimal"])
+    if forced == "t3w":
+        scheme = rng.choice(["flow", "both"])     # p/q on the hv, mv and lv side of every in-service trafo3w are in the set
     slack_buses = set(int(b) for b in net.ext_grid.bus.values)
     if scheme == "minimal" and (feat & {"fused_bus", "open_line_switch"} or len(slack_buses) != 1):
         scheme = "inj"       # auxiliary/fused buses change the number of states: keep the exactly determined case simple
@@ -390,6 +425,13 @@ def _real_case(ctx, rng, k, hx_jobs, gain_jobs, jac_jobs=None):
     with_i = rng.random() < 0.4
     if scheme != "minimal":
         ms += [m for m in extra if rng.random() < 0.4 and (m[0] != "i" or with_i)]
+    if forced == "t3w":
+        # current magnitudes on all three sides of the in-service three-winding transformers as well
+        have = set((m[0], m[1], int(m[4]), m[5]) for m in ms)
+        ms += [m for m in extra if m[0] == "i" and m[1] == "trafo3w" and (m[0], m[1], int(m[4]), m[5]) not in have]
+        for need in ("p", "q", "i"):
+            for side in ("hv", "mv", "lv"):
+                assert any(m[0] == need and m[1] == "trafo3w" and m[5] == side for m in ms), "forced trafo3w reading missing"
     js = pp.to_json(net)
     case = {"net": js, "scheme": scheme, "measurements": [[m[0], m[1], float(m[2]), float(m[3]), int(m[4]), m[5]] for m in ms]}
     for f_ in sorted(feat):
@@ -514,6 +556,12 @@ def run(ctx):
     hx_jobs, gain_jobs, jac_jobs = [], [], []
     for k in range(ctx.n(45, 500)):
         _real_case(ctx, rng, k, hx_jobs, gain_jobs, jac_jobs)
+    # forced share (own random stream, after the generated cases so that those do not move): nets with 2-3 three-winding
+    # transformers, at least one out of service, p/q/i readings on the hv, mv and lv sides of the in-service ones
+    rng3 = random.Random(int(ctx.seed) * 7907 + 19)
+    for k in range(ctx.n(6, 60)):
+        _real_case(ctx, rng3, 100000 + k, hx_jobs, gain_jobs, jac_jobs, forced="t3w")
+        ctx.count("forced_trafo3w_oos_cases")
     terms = t1 + t2 + [j[0][0] for j in hx_jobs] + [j[0][0] for j in gain_jobs] + [j[0][0] for j in jac_jobs]
     model = ctx.coq_eval("c19", "Base.QN Base.QC C19.Model", terms, shard=40, timeout=900)
     pos = 0
